@@ -616,7 +616,12 @@ package orda
 //@   requires wrappersWF()
 //@   ensures result == garbageP(primOf(its))
 //@   modifies nothing
-//@ extern func jsonType.getType
+// the kind a node reports is the kind of its wrapper (1 element, 2 object, 3 array): proved on every implementation
+//@ func jsonType.getType
+//@   mode math
+//@   props C03
+//@   targets *jsonObject, *jsonArray, *jsonElement, *jsonPrimitive
+//@   ensures[kind-of-the-wrapper] (its.(*jsonElement) ==> result == 1) && (its.(*jsonObject) ==> result == 2) && (its.(*jsonArray) ==> result == 3)
 //@   modifies nothing
 
 //@ func (*jsonPrimitive).isGarbage
@@ -635,6 +640,7 @@ package orda
 //@   dispatch jsonType : *jsonPrimitive | *jsonObject | *jsonArray | *jsonElement
 //@   requires its.SnapshotDatatype != nil && its.SnapshotDatatype.Snapshot != nil && (its.SnapshotDatatype.Snapshot.(*jsonObject) || its.SnapshotDatatype.Snapshot.(*jsonArray) || its.SnapshotDatatype.Snapshot.(*jsonElement)) && wrappersWF() && its.SnapshotDatatype.BaseDatatype != nil && its.datatype != nil
 //@   ensures[a-detached-node-is-refused] !workOnGarbage && garbageP(primOf(its.SnapshotDatatype.Snapshot.(as jsonType))) ==> result != nil
+//@   ensures[the-wrong-kind-of-container-is-refused] result == nil ==> (ofJSON == 1 ==> its.SnapshotDatatype.Snapshot.(*jsonElement)) && (ofJSON == 2 ==> its.SnapshotDatatype.Snapshot.(*jsonObject)) && (ofJSON == 3 ==> its.SnapshotDatatype.Snapshot.(*jsonArray)) && ofJSON >= 1 && ofJSON <= 3
 //@   modifies nothing
 
 // ---------------------------------------------------------------------------------------
@@ -699,3 +705,40 @@ package orda
 //@   loop 0 invariant[numbered-in-key-order] forall k1 string, k2 string :: k1 in jo.mapSnapshot.Map && k2 in jo.mapSnapshot.Map && strlt(k1, k2) ==> childDelim(jo, k1) < childDelim(jo, k2)
 //@   ensures[children-numbered-in-key-order] result != nil && (kindOf(value) == 21 ==> forall k1 string, k2 string :: k1 in result.mapSnapshot.Map && k2 in result.mapSnapshot.Map && strlt(k1, k2) ==> childDelim(result, k1) < childDelim(result, k2))
 //@   modifies *
+
+// ---------------------------------------------------------------------------------------
+// Document API (C03): invalid arguments are answered with an error. The Document object as its API methods
+// see it (same reading as listAPI above): embedded parts present, the node it stands for is one of the three
+// json wrappers, the transaction layer is well-formed, single-threaded use.
+// ---------------------------------------------------------------------------------------
+//@ pred docAPI(d *document) = d.datatype != nil && d.SnapshotDatatype != nil && d.datatype.WiredDatatype != nil && d.datatype.WiredDatatype.TransactionDatatype != nil && datatypes.txWF(d.datatype.WiredDatatype.TransactionDatatype) && d.SnapshotDatatype.Snapshot != nil && (d.SnapshotDatatype.Snapshot.(*jsonObject) || d.SnapshotDatatype.Snapshot.(*jsonArray) || d.SnapshotDatatype.Snapshot.(*jsonElement)) && wrappersWF() && d.SnapshotDatatype.BaseDatatype != nil && (d.datatype.TxCtx != nil ==> allocated(d.datatype.TxCtx)) && datatypes.rollbackSound() && (d.SnapshotDatatype.Snapshot.(*jsonArray) ==> d.SnapshotDatatype.Snapshot.(as *jsonArray).listSnapshot != nil && d.SnapshotDatatype.Snapshot.(as *jsonArray).listSnapshot.size >= 0 && d.SnapshotDatatype.Snapshot.(as *jsonArray).listSnapshot.BaseDatatype != nil)
+//@ pred docTxOK(d *document) = (!(d.datatype.WiredDatatype.TransactionDatatype.isLocked && d.datatype.WiredDatatype.TransactionDatatype.txCtx == d.datatype.TxCtx) ==> !d.datatype.WiredDatatype.TransactionDatatype.isLocked) && (d.datatype.WiredDatatype.TransactionDatatype.isLocked && d.datatype.WiredDatatype.TransactionDatatype.txCtx == d.datatype.TxCtx ==> datatypes.opsIDed(d.datatype.WiredDatatype.TransactionDatatype.txCtx.opBuffer))
+
+//@ func (*document).PutToObject
+//@   mode math
+//@   props C03
+//@   requires docAPI(its) && docTxOK(its)
+//@   ensures[empty-key-and-null-value-are-refused] key == "" || value == nil ==> result1 != nil
+//@   modifies *
+
+//@ func (*document).InsertToArray
+//@   mode math
+//@   props C03
+//@   requires docAPI(its) && docTxOK(its)
+//@   ensures[null-values-are-refused] (forall v in values :: v != nil) || result1 != nil
+//@   modifies *
+
+//@ func (*document).UpdateManyInArray
+//@   mode math
+//@   props C03
+//@   requires docAPI(its) && docTxOK(its)
+//@   ensures[null-values-are-refused] (forall v in values :: v != nil) || result1 != nil
+//@   modifies *
+
+//@ func (*document).toDocuments
+//@   mode math
+//@   props C03
+//@   requires its.SnapshotDatatype != nil
+//@   loop 0 invariant len(ret) == rangeindex + 1 && rangeindex < len(children)
+//@   ensures[one-document-per-node] len(result) == len(children)
+//@   modifies alloc
